@@ -177,10 +177,12 @@ class Hook(Generic[T]):
         """
 
         if self.owner != owner:
-            # create distinct instance on subclass
-            hook = Hook()
-            hook.__orig_class__ = self.__orig_class__
-            setattr(owner, self.name, hook)
+            # the distinct instance of the subclass: the one it carries already, else a new one is created
+            hook = owner.__dict__.get(self.name, None)
+            if not isinstance(hook, Hook) or hook.owner != owner:
+                hook = Hook()
+                hook.__orig_class__ = self.__orig_class__
+                setattr(owner, self.name, hook)
             return hook.__get__(instance, owner)
 
         if instance is None:
